@@ -170,6 +170,29 @@ def oracle_props(ck, rng):
                          oracle="score_semantics", measured=f)
 
 
+def oracle_landscape_candidates(ck, rng):
+    """multi-candidate landscapes: candidate i's landscape is computed from the sub-volume under candidate i's own mask, exactly as
+    alignment does (scripted model from the C06 harness: identity pre-transform, landscape value = candidate index)"""
+    from props.C06 import make_stub, rot_set
+    Stub = make_stub()
+    for T, K in ((1, 3), (2, 2), (3, 1), (2, 4)):
+        tmpls = [rng.normal(size=(3, 3, 3)).astype(np.float32) for _ in range(T)]
+        mask = np.zeros((3, 3, 3), dtype=np.float32)
+        mask[1, 1, 1] = mask[0, 1, 1] = mask[0, 0, 1] = mask[0, 0, 2] = 1.0
+        rots = rot_set(K, rng) if K > 1 else None
+        Stub.script = {0: [0.0] * (T * K)}
+        model = Stub(tmpls if T > 1 else tmpls[0], mask, rotations=rots)
+        Stub.pairing_errors.clear()
+        lnd = np.asarray(model.landscape(np.ones((3, 3, 3), dtype=np.float32), (1, 1, 1)))
+        ck.oracle_count("landscape_candidate_uses_own_mask", 1, 1)
+        order_ok = lnd.shape[0] == T * K and all(abs(float(lnd[i, 1, 1, 1]) - i) < 1e-6 for i in range(T * K))
+        if Stub.pairing_errors or not order_ok:
+            ck.violation(what=f"model.landscape with {T} template(s) x {K} rotation(s): candidates {sorted(set(i_ for _, i_ in Stub.pairing_errors))} computed on a "
+                              f"sub-volume masked with another candidate's mask" + ("" if order_ok else "; candidate order of the stacked landscape is wrong"),
+                         inp={"T": T, "K": K}, key={"site": "landscape-multiple", "symptom": "mask-pairing" if Stub.pairing_errors else "order"},
+                         oracle="landscape_candidate_uses_own_mask")
+
+
 def run(ck: common.Check):
     ck.design_ref = "DESIGN.md §6 C07"
     ck.trusted_base = TB
@@ -182,6 +205,7 @@ def run(ck: common.Check):
     rng = np.random.default_rng(ck.seed + 707)
     corr_scores(ck, rng)
     oracle_props(ck, rng)
+    oracle_landscape_candidates(ck, rng)
 
 
 def replay(data):
